@@ -2,7 +2,13 @@
 #ifndef DEC_COMMON_H
 #define DEC_COMMON_H
 #include "common.h"
-#include "lib/lha_decoder.h" /* lib/lha_decoder.h: struct layout, only used for state hashing */
+#ifndef VF_NO_INTERNALS
+#include "lib/lha_decoder.h" /* lib/lha_decoder.h: struct layout, only used for state hashing (counting distinct states, never a verdict) */
+#else
+/* the build falls back to this when the library's private header no longer has the layout assumed below: the public interface
+ * is all the oracles need; explored states are then told apart by their output only */
+#include "lha_decoder.h"
+#endif
 #include "ref_lz.h"
 #include "ref_crc16.h"
 #include "streams.h"
@@ -49,6 +55,12 @@ static void dec_no_aslr(char **argv)
 	}
 }
 
+#ifdef VF_NO_INTERNALS
+static uint64_t dec_state_hash(LHADecoder *d, uint64_t outhash)
+{
+	return vf_mix(outhash, lha_decoder_get_length(d));
+}
+#else
 static uint64_t dec_state_hash(LHADecoder *d, uint64_t outhash)
 {
 	size_t es = d->dtype->extra_size;
@@ -71,6 +83,7 @@ static uint64_t dec_state_hash(LHADecoder *d, uint64_t outhash)
 	}
 	return h;
 }
+#endif
 
 typedef struct {
 	size_t len;          /* bytes returned in total */
